@@ -213,7 +213,7 @@ PROPS = {
                 "argument, mutual, through a closure, through `self`, non-tail), terminating recursion just below/above each limit (need measured in process; default "
                 "depth: extrapolated), nested closures, huge operands (\"ab\"*N, [1]*N, 0:N, a+a, four string doublings) on both sides of the budget, growth in a loop "
                 "(array/string doubling, s*2, map merges, append, nesting), source text nested 10^4..4*10^4 deep (parens, brackets, `- `, `!`, if-blocks, calls, func "
-                "literals, a left-deep + chain; blocks 1000..4000; thorough: 10^6), sleep(10). Measured per run: exit status, result kind, wall time inside "
+                "literals, a left-deep + chain; blocks 1000..4000; thorough: 10^6), values with shared structure (a=[a,a] 8..15 times, then a==a / println(a)), sleep(10). Measured per run: exit status, result kind, wall time inside "
                 "EvalStringWithOption, peak RSS (VmHWM). Statement (lean/Grol/BoundedSuite.lean): exit 0, wall <= deadline + 3000 ms, RSS <= 4 x limit, result kind allowed "
                 "for the family (loops: deadline; unbounded recursion: depth, or deadline when one is set; huge operands: refused or within the budget; never a stray Go panic). "
                 "The driver predicts the result kind from Grol.Memory / Grol.Depth where it can (compared: agree) — wall time and RSS are never predicted.",
